@@ -33,7 +33,12 @@ pub struct ReaderState {
     pub max_buf_seen: usize,
     /// a zero-length buffer was offered to poll_read
     pub zero_len_reads: usize,
+    /// how often the end / failure of the transport has been reported
+    pub fault_reads: usize,
 }
+
+/// see `fault_reads`
+pub const SPIN_LIMIT: usize = 20_000;
 
 #[derive(Clone, Default)]
 pub struct MockReader(pub Rc<RefCell<ReaderState>>);
@@ -102,12 +107,19 @@ impl AsyncRead for MockReader {
             return Poll::Ready(Ok(0));
         }
         if s.chunks.is_empty() {
-            if s.err {
+            if s.err || s.eof {
                 s.fault_reported = true;
-                return Poll::Ready(Err(io::Error::new(io::ErrorKind::ConnectionReset, "mock")));
-            }
-            if s.eof {
-                s.fault_reported = true;
+                s.fault_reads += 1;
+                // a caller that keeps reading in a loop that never yields cannot be stopped by the
+                // poll budget; this count is deterministic (no clock involved)
+                if s.fault_reads > SPIN_LIMIT {
+                    s.fault_reads = 0;
+                    drop(s);
+                    panic!("VERIF-SPIN the end/failure of the transport was reported {SPIN_LIMIT} times and the caller keeps reading");
+                }
+                if s.err {
+                    return Poll::Ready(Err(io::Error::new(io::ErrorKind::ConnectionReset, "mock")));
+                }
                 return Poll::Ready(Ok(0));
             }
             s.waker = Some(cx.waker().clone());
@@ -156,6 +168,7 @@ pub struct WriterState {
     pub credit: Option<usize>,
     pub fault: WriteFault,
     pub fault_reported: bool,
+    pub fault_writes: usize,
     pub waker: Option<Waker>,
     pub writes: usize,
     pub pendings: usize,
@@ -174,6 +187,7 @@ impl Default for WriterState {
             credit: None,
             fault: WriteFault::None,
             fault_reported: false,
+            fault_writes: 0,
             waker: None,
             writes: 0,
             pendings: 0,
@@ -252,6 +266,12 @@ impl AsyncWrite for MockWriter {
             WriteFault::ErrAt(at) => {
                 if total >= at {
                     s.fault_reported = true;
+                    s.fault_writes += 1;
+                    if s.fault_writes > SPIN_LIMIT {
+                        s.fault_writes = 0;
+                        drop(s);
+                        panic!("VERIF-SPIN the failure of the transport was reported {SPIN_LIMIT} times and the caller keeps writing");
+                    }
                     return Poll::Ready(Err(io::Error::new(io::ErrorKind::BrokenPipe, "mock")));
                 }
                 n = n.min(at - total);
@@ -259,6 +279,12 @@ impl AsyncWrite for MockWriter {
             WriteFault::ZeroAt(at) => {
                 if total >= at {
                     s.fault_reported = true;
+                    s.fault_writes += 1;
+                    if s.fault_writes > SPIN_LIMIT {
+                        s.fault_writes = 0;
+                        drop(s);
+                        panic!("VERIF-SPIN a closed transport (write returns 0) was reported {SPIN_LIMIT} times and the caller keeps writing");
+                    }
                     return Poll::Ready(Ok(0));
                 }
                 n = n.min(at - total);
